@@ -6,6 +6,9 @@
 //	    variants, bracket kinds and precedence-relying parenthesisation. Prepare must accept; the canonical
 //	    string it stores must parse to a Node with the same truth table as the plain symbolic rendering
 //	    of the same AST, and preparing the canonical string again must return it unchanged.
+//	(c) concurrent: every text accepted in (a) is prepared again by 8-16 goroutines at once (as parallel
+//	    API requests do); each call must produce the canonical form seen sequentially. Also run from
+//	    a -race build.
 //	(b) fuzz: random bytes, token soups, type-confused clauses, mutated valid conditions, deep nesting,
 //	    long chains. Prepare must return (error or statement) without panicking; whatever it accepts must
 //	    have an idempotent canonical form that parses and evaluates (without panicking) exactly like the
@@ -18,6 +21,7 @@ import (
 	"net/netip"
 	"runtime/debug"
 	"strings"
+	"sync"
 
 	"github.com/els0r/goProbe/v4/pkg/goDB/conditions"
 	"github.com/els0r/goProbe/v4/pkg/goDB/conditions/node"
@@ -43,22 +47,33 @@ func init() {
 			"no DNS: host-name-looking values are expected to be rejected by the resolver",
 		},
 		NumCases: func(tier, variant string) int {
+			if variant == "race" {
+				if tier == "thorough" {
+					return 100
+				}
+				return 8
+			}
 			if tier == "thorough" {
 				return 2000
 			}
 			return 64
 		},
-		Run: run,
+		Variants: func(tier string) []string { return []string{"default", "race"} },
+		Run:      run,
 		Require: []string{"grammar_renderings", "grammar_accepted", "grammar_truth_tables", "grammar_word_and_then_not", "grammar_word_spellings", "grammar_symbol_no_whitespace",
 			"grammar_whitespace_tab_newline", "grammar_alt_brackets", "grammar_dir_filter", "grammar_precedence_renderings", "grammar_upper_proto",
-			"fuzz_inputs", "fuzz_accepted", "fuzz_rejected", "fuzz_deep_nesting", "fuzz_long_chain", "fuzz_truth_tables", "canonical_idempotence_checked", "repeat_prepare_calls"},
+			"fuzz_inputs", "fuzz_accepted", "fuzz_rejected", "fuzz_deep_nesting", "fuzz_long_chain", "fuzz_truth_tables", "canonical_idempotence_checked", "repeat_prepare_calls", "concurrent_prepare_calls"},
 	})
 }
 
 type state struct {
 	c    *fw.Case
 	seen map[string]bool
+	// texts accepted by the sequential workload with the canonical form seen there (input of (c))
+	acc []acceptedText
 }
+
+type acceptedText struct{ text, canonical string }
 
 func (s *state) violate(sig, format string, args ...any) {
 	if s.seen[sig] {
@@ -173,10 +188,76 @@ func run(c *fw.Case) {
 	if c.Tier == "thorough" {
 		nGrammar, nFuzz = 100, 1000
 	}
+	if c.Variant == "race" {
+		// the race build is about (c): a few grammar conditions to obtain accepted texts, no fuzzing
+		nGrammar, nFuzz = 24, 0
+	}
 	for i := 0; i < nGrammar; i++ {
 		grammarOne(c, st, c.Rng, i)
 	}
-	fuzz(c, st, c.Rng, nFuzz)
+	if nFuzz > 0 {
+		fuzz(c, st, c.Rng, nFuzz)
+	}
+	concurrent(c, st)
+}
+
+// ---------------------------------------------------------------------------------------------
+// (c) concurrent preparation: the API server prepares the conditions of parallel requests on
+// separate goroutines. Every text accepted by the sequential workload is prepared again by several
+// goroutines at once (each with its own Args); the outcome must be the one seen sequentially —
+// never a rejection, a panic, or the canonical form of somebody else's condition.
+func concurrent(c *fw.Case, st *state) {
+	// only texts whose canonical form is stable under repeated sequential preparation take part
+	var pool []acceptedText
+	for _, a := range st.acc {
+		stable := true
+		for k := 0; k < 3 && stable; k++ {
+			o, err, pm := condx.Prepare(a.text)
+			stable = pm == "" && err == nil && o != nil && o.Condition == a.canonical
+		}
+		if stable {
+			pool = append(pool, a)
+		}
+	}
+	if len(pool) < 4 {
+		return
+	}
+	workers, iters := 8, 150
+	if c.Tier == "thorough" {
+		workers, iters = 16, 400
+	}
+	type bad struct{ sig, detail string }
+	res := make(chan bad, workers)
+	var wg sync.WaitGroup
+	for w := 0; w < workers; w++ {
+		wr := c.SubRng(fmt.Sprintf("concurrent-%d", w))
+		wg.Add(1)
+		go func() {
+			defer wg.Done()
+			for i := 0; i < iters; i++ {
+				a := pool[wr.Intn(len(pool))]
+				o, err, pm := condx.Prepare(a.text)
+				switch {
+				case pm != "":
+					res <- bad{"concurrent_prepare|panic", fmt.Sprintf("Prepare(%s) panicked while other goroutines prepared other conditions: %s", show(a.text), condx.FirstLine(pm))}
+					return
+				case err != nil || o == nil:
+					res <- bad{"concurrent_prepare|rejected", fmt.Sprintf("Prepare(%s) is accepted sequentially (canonical %q) but was rejected while other goroutines prepared other conditions: %v", show(a.text), a.canonical, err)}
+					return
+				case o.Condition != a.canonical:
+					res <- bad{"concurrent_prepare|canonical_differs", fmt.Sprintf("Prepare(%s) yields the canonical form %q sequentially, but %q while other goroutines prepared other conditions", show(a.text), a.canonical, o.Condition)}
+					return
+				}
+			}
+		}()
+	}
+	wg.Wait()
+	close(res)
+	c.Count("concurrent_prepare_calls", workers*iters)
+	c.Count("concurrent_prepare_texts", len(pool))
+	for b := range res {
+		st.violate(b.sig, "%s", b.detail)
+	}
 }
 
 // ---------------------------------------------------------------------------------------------
@@ -331,6 +412,7 @@ func grammarOne(c *fw.Case, st *state, r *rand.Rand, i int) {
 		o, oerr, _ := condx.Prepare(text)
 		if o != nil && oerr == nil {
 			c.Count("grammar_accepted", 1)
+			st.acc = append(st.acc, acceptedText{text, o.Condition})
 		}
 		c.Count("grammar_truth_tables", 1)
 		nT := 0
